@@ -508,7 +508,7 @@ def enumerate_cases(ctx):
     red = [(-1, 0, 2), (-1, 0, 2)]
     tiny = [(0, -1), (0, 2)]
     mid = [(0, -1), (0, 1, 2)]
-    alph = {1: [full], 2: [full], 3: [mid] if quick else [red, full], 4: [tiny] if quick else [mid]}
+    alph = {1: [full], 2: [red] if quick else [full], 3: [mid] if quick else [red, full], 4: [tiny] if quick else [mid]}
     ctx.scope('_find_best_channels: all 2-sample templates on 1..4 channels over value alphabets %s x positions '
               '(tie-free line, renumbered line, line with distance ties, 2-D) x shank maps (1-2 shanks) x '
               'n_closest_channels in {1,2,3,5} (below/above the channel count) x threshold in {attr 0, 0, .5, 1, attr .5} '
@@ -516,7 +516,7 @@ def enumerate_cases(ctx):
     for nc in (1, 2, 3, 4):
         for pi, pos in enumerate(POS[nc]):
             for si, sh in enumerate(SHANKS[nc]):
-                if nc == 4 and quick and (pi + si) % 2:
+                if nc == 4 and (pi + si) % 2:
                     continue
                 for ncl in (1, 2, 3, 5):
                     if ncl > nc + 1 and ncl != 5:
@@ -528,6 +528,8 @@ def enumerate_cases(ctx):
                             if ai and (pi + si + ncl) % 3:   # the widest alphabet on a third of the configurations
                                 continue
                             for tpl in _templates(nc, al):
+                                if ai and not any(v == 1 for r in tpl for v in r):
+                                    continue   # already enumerated with the narrower alphabet
                                 ctx.run('find_best_channels', {'tpl': tpl, 'pos': pos, 'shanks': sh, 'ncl': ncl,
                                                                'thr': thr, 'attr_thr': attr})
 
